@@ -62,7 +62,7 @@ func checkC20(c *Ctx) {
 	if c.Tier == "thorough" {
 		n = 300000
 	}
-	c.Rule = "evaluation = one controlled schedule: G tasks (real goroutines, exactly one running at a time), each with its own UE context and messages, run 1..6 library operations (NGAP encode/decode, plain NAS encode/decode, NASEncode/NASDecode with all algorithm pairs, DeriveRESstarAndSetKey, NASEncrypt, NASMacCalculate) in an instrumented copy of the libraries; the seeded scheduler (uniform random with p in {1/4,1/20,1/100}, PCT with d<=3 change points, switch-at-shared-access) decides at every yield point who continues. distinct = distinct (task set, decision list) hash; non-trivial = at least one context switch happened inside a library operation"
+	c.Rule = "evaluation = one controlled schedule: G tasks (real goroutines, exactly one running at a time), each with its own UE context and messages, run 1..6 library operations (NGAP encode/decode, plain NAS encode/decode, NASEncode/NASDecode with all algorithm pairs, DeriveRESstarAndSetKey, NASEncrypt, NASMacCalculate, the Milenage library functions) in an instrumented copy of the libraries; the seeded scheduler (uniform random with p in {1/4,1/20,1/100}, PCT with d<=3 change points, switch-at-shared-access) decides at every yield point who continues. distinct = distinct (task set, decision list) hash; non-trivial = at least one context switch happened inside a library operation"
 	c.Assume = []string{"yield points are function entries and loop bodies of the instrumented packages plus every statement touching a mutable package-level variable: interleavings finer than that (inside one statement) are not explored",
 		"third-party packages (wmnsk/milenage, aead/cmac, logrus, std) are not instrumented: shared state inside them is invisible to the race clause; results are still compared",
 		"locks are identified by the text of the receiver expression: two different mutex objects reached through the same expression count as one (over-approximates 'common lock')",
